@@ -52,8 +52,16 @@ func runC12(c *Check) {
 	for _, e := range effects {
 		if e.T == "profile.Mapping" && strings.HasPrefix(e.F, "Has") && e.What == "store" {
 			key := "hasflag:" + fnName(e.Fn) + ":" + e.F
-			if k, ok := e.Val.(*ssa.Const); ok && k.Value != nil && k.Value.Kind() == constant.Bool && constant.BoolVal(k.Value) {
-				c.ok("C12-R2", key, p.relFile(e.Pos), "Mapping."+e.F+" is only set, never cleared, in "+fnName(e.Fn), "stored value is the constant true")
+			sticky, how := false, ""
+			if st := storeAt(e); st != nil {
+				if fa, ok := st.Addr.(*ssa.FieldAddr); ok {
+					sticky, how = stickyValue(e.Val, fa, true)
+				}
+			} else if k, ok := e.Val.(*ssa.Const); ok && k.Value != nil && k.Value.Kind() == constant.Bool && constant.BoolVal(k.Value) {
+				sticky, how = true, "constant true"
+			}
+			if sticky {
+				c.ok("C12-R2", key, p.relFile(e.Pos), "Mapping."+e.F+" is only set, never cleared, in "+fnName(e.Fn), "stored value: "+how)
 			} else {
 				c.bad("C12-R2", key, p.relFile(e.Pos), "Mapping."+e.F+" is assigned a value other than the constant true in "+fnName(e.Fn))
 			}
@@ -141,7 +149,25 @@ func runC12(c *Check) {
 			}
 		}
 		if elemStore == nil {
-			c.undecided("C12-R5", "lines-filled", p.relFile(so.Pos()), "symbolizeOneMapping does not fill Location.Line element by element")
+			// alternative shape: the list is grown with append, one Line per frame, and assigned
+			// afterwards; there are no pre-sized slots that could stay empty
+			grown := false
+			for _, b := range so.Blocks {
+				for _, ins := range b.Instrs {
+					if st, ok := ins.(*ssa.Store); ok {
+						if fa, ok := st.Addr.(*ssa.FieldAddr); ok {
+							if T, F := fieldOf(fa.X.Type(), fa.Field); T == "profile.Location" && F == "Line" && len(appendsFeeding(st.Val, map[ssa.Value]bool{})) > 0 {
+								grown = true
+							}
+						}
+					}
+				}
+			}
+			if grown {
+				c.ok("C12-R5", "lines-filled", p.relFile(so.Pos()), "the new line list holds exactly the lines that were appended", "Location.Line is assigned a slice grown by append; no pre-sized element can remain unset")
+			} else {
+				c.undecided("C12-R5", "lines-filled", p.relFile(so.Pos()), "symbolizeOneMapping neither fills Location.Line element by element nor grows it by append")
+			}
 		} else if skippableInIteration(elemStore.Block()) {
 			c.bad("C12-R5", "lines-filled", p.relFile(elemStore.Pos()), "a path through the frame loop of symbolizeOneMapping skips the assignment of l.Line[i]: the pre-sized slice keeps a zero Line with a nil Function and the profile is no longer valid")
 		} else {
@@ -184,6 +210,10 @@ func runC12(c *Check) {
 									how = "its length is len(" + describeValue(la) + "), which is at least 1 on every path to the assignment"
 								}
 							}
+						}
+						if min < 1 && appendedAtLeastOnce(g, f, st.Val) {
+							min = 1
+							how = "grown by an append that runs on every iteration of a loop over a list known to be non-empty"
 						}
 						if min >= 1 {
 							c.ok("C12-R6", key, p.relFile(st.Pos()), "Location.Line is replaced only by a non-empty list in "+fnName(f), how)
@@ -411,6 +441,20 @@ func classifyIDValue(v ssa.Value, fn *ssa.Function, leaves map[string]bool, seen
 				classifyIDValue(a, fn, leaves, seen, depth+1)
 			}
 			return
+		}
+		// a helper of the module that computes the value (e.g. the largest id in use): classify
+		// what it returns
+		if callee := x.Call.StaticCallee(); callee != nil && fnInModule(callee) && len(callee.Blocks) > 0 && depth < 30 {
+			nret := 0
+			for _, b := range callee.Blocks {
+				if ret, ok := b.Instrs[len(b.Instrs)-1].(*ssa.Return); ok && len(ret.Results) >= 1 {
+					nret++
+					classifyIDValue(ret.Results[0], callee, leaves, seen, depth+1)
+				}
+			}
+			if nret > 0 {
+				return
+			}
 		}
 		leaves["?call "+x.Call.Value.Name()] = true
 	case *ssa.UnOp:
@@ -696,6 +740,44 @@ func nonEmptyAtStore(f *ssa.Function, st *ssa.Store) string {
 			}
 		}
 	}
+	// (b') the same through a helper returning (Filter(name, …), result != name), stored on
+	// the branch where the flag is true
+	if ex, ok := v.(*ssa.Extract); ok && ex.Index == 0 {
+		if call, ok := ex.Tuple.(*ssa.Call); ok && call.Call.StaticCallee() != nil && fnInModule(call.Call.StaticCallee()) && len(call.Call.StaticCallee().Blocks) > 0 {
+			h := call.Call.StaticCallee()
+			shape := true
+			nret := 0
+			for _, b := range h.Blocks {
+				ret, ok := b.Instrs[len(b.Instrs)-1].(*ssa.Return)
+				if !ok {
+					continue
+				}
+				nret++
+				if len(ret.Results) != 2 {
+					shape = false
+					continue
+				}
+				fc, isCall := ret.Results[0].(*ssa.Call)
+				cmp, isCmp := ret.Results[1].(*ssa.BinOp)
+				if !isCall || fc.Call.StaticCallee() == nil || fc.Call.StaticCallee().Name() != "Filter" || !isCmp || cmp.Op != token.NEQ || !(cmp.X == ssa.Value(fc) || cmp.Y == ssa.Value(fc)) {
+					shape = false
+				}
+			}
+			if shape && nret > 0 {
+				for d := st.Block(); d != nil; d = d.Idom() {
+					id := d.Idom()
+					if id == nil {
+						break
+					}
+					if iff, ok := id.Instrs[len(id.Instrs)-1].(*ssa.If); ok && id.Succs[0] == d && len(d.Preds) == 1 {
+						if fl, ok := iff.Cond.(*ssa.Extract); ok && fl.Tuple == ex.Tuple && fl.Index == 1 {
+							return "a demangle.Filter result (through " + fnName(h) + "), stored only when it differs from the mangled input"
+						}
+					}
+				}
+			}
+		}
+	}
 	// (c) any value under a dominating test v != "" (or len(v) != 0)
 	for d := st.Block(); d != nil; d = d.Idom() {
 		id := d.Idom()
@@ -746,4 +828,61 @@ func nonEmptyAtStore(f *ssa.Function, st *ssa.Store) string {
 		return "the store is unreachable when the value is empty"
 	}
 	return ""
+}
+
+// appendsFeeding: the append calls whose result flows into v through phis and re-appends.
+func appendsFeeding(v ssa.Value, seen map[ssa.Value]bool) []*ssa.Call {
+	if seen[v] {
+		return nil
+	}
+	seen[v] = true
+	switch x := v.(type) {
+	case *ssa.Phi:
+		var out []*ssa.Call
+		for _, e := range x.Edges {
+			out = append(out, appendsFeeding(e, seen)...)
+		}
+		return out
+	case *ssa.Call:
+		if bi, ok := x.Call.Value.(*ssa.Builtin); ok && bi.Name() == "append" {
+			return append([]*ssa.Call{x}, appendsFeeding(x.Call.Args[0], seen)...)
+		}
+	}
+	return nil
+}
+
+// appendedAtLeastOnce: v is grown by an append that cannot be skipped within an iteration of
+// a range loop over a list whose length is known to be at least 1 where the loop starts.
+func appendedAtLeastOnce(g *guardEngine, f *ssa.Function, v ssa.Value) bool {
+	for _, app := range appendsFeeding(v, map[ssa.Value]bool{}) {
+		b := app.Block()
+		if skippableInIteration(b) {
+			continue
+		}
+		// the innermost loop containing the append and the list it ranges over
+		for d := b; d != nil; d = d.Idom() {
+			isHdr := false
+			for _, pred := range d.Preds {
+				if d.Dominates(pred) {
+					isHdr = true
+				}
+			}
+			if !isHdr || !naturalLoop(d)[b] {
+				continue
+			}
+			for _, ins := range d.Instrs {
+				cmp, ok := ins.(*ssa.BinOp)
+				if !ok || cmp.Op != token.LSS || !rangeIndex(cmp.X) {
+					continue
+				}
+				if lx := lenArg(cmp.Y); lx != nil {
+					if g.guardedMin(guardSite{fn: f, ins: d.Instrs[0], x: lx}, lx) >= 1 {
+						return true
+					}
+				}
+			}
+			break
+		}
+	}
+	return false
 }
